@@ -89,6 +89,9 @@ def _cases(ctx, deep=False):
             for mems in ((), (1,)):
                 cases.append({'cfg': {'mems': list(mems)}, 'seed': rng.randrange(1 << 30), 'cb_actions': [[cbn, 'close']],
                               'script': [o, ['sleep', 1.0], c_, ['reconnect']]})
+        for nth in (0, 1, 2):      # close from inside a parameter-value callback during the initial download
+            cases.append({'cfg': {'n_param': 3}, 'seed': rng.randrange(1 << 30), 'cb_actions': [['param_update', 'close', nth]],
+                          'script': [o, ['sleep', 1.0], c_, ['reconnect']]})
         cases.append({'cfg': {}, 'seed': rng.randrange(1 << 30), 'cb_actions': [['connection_requested', 'close']],
                       'script': [o, ['sleep', 1.0], c_, ['reconnect']]})      # known finding F02l
         for cbn in ('disconnected', 'connection_lost'):
@@ -126,6 +129,12 @@ def _cases(ctx, deep=False):
         if rng.random() < 0.3:
             cfg.update(fault_at=rng.randrange(50, 70), fault_mode=rng.choice(['driver', 'sender']))
         cases.append({'cfg': cfg, 'seed': rng.randrange(1 << 30), 'script': script})
+    # a driver-thread link error that is pending around the moment connected is delivered: many schedules, so that the
+    # error handler runs between SyncCrazyflie's connected handler and the wake-up of the thread blocked in open_link
+    for k in range(12, 24):
+        for s_ in range(8):
+            cases.append({'cfg': {'fault_at': k, 'fault_mode': 'driver'}, 'seed': rng.randrange(1 << 30),
+                          'script': [['sync_open'], ['sleep', 0.5], ['sync_close'], ['reconnect']]})
     # link error during connect(): reported synchronously, by the driver's thread before connect() returns, or by
     # the driver thread as soon as it is scheduled
     for s in range(seeds * 2):
@@ -214,7 +223,7 @@ def _model_events(case, r):
         if e[0] == 'ev':
             if e[1] in own:
                 pending.setdefault(e[2], []).append(e[1])
-            elif e[1].startswith('mem_write') or e[1].startswith('slow_send'):
+            elif e[1].startswith('mem_write') or e[1].startswith('slow_send') or e[1].startswith('sync_open_ok'):
                 pass                  # not a lifecycle event
             else:
                 evs.append(e[1])
@@ -288,7 +297,7 @@ def tie(ctx):
         if an:
             skipped += 1          # runs on which the property itself fails are handled by the oracle
             continue
-        reent = bool(c.get('cb_actions')) and all(a[1] == 'close' for a in c['cb_actions'])
+        reent = bool(c.get('cb_actions')) and all(a[1] == 'close' and a[0] != 'param_update' for a in c['cb_actions'])
         if c02_oracle.overlapping(r['log']) or (not reent and c02_oracle.reentrant_split(r['log'])):
             overl += 1            # two transition functions overlapped in time: outside the atomic model (the oracle
             continue              # still judged the run against the property text)
